@@ -246,6 +246,9 @@ def run(check, ctx):
     c_modes.mode_tables(check, ctx, ("ctr", "cfb", "ofb", "cbc", "ecb"), rule="SEG-c")
     from . import c_ocb
     c_ocb.ocb_tables(check, ctx, rule="SEG-c", groups=("crypt",))
+    # the AEAD layers fed in awkward pieces give the specification's (one-shot) ciphertext and tag
+    from . import aead_compose
+    aead_compose.compose_tables(check, ctx, rule="SEG")
     check.floor("SEG-c", 5)
     from . import c_keccak
     c_keccak.keccak_tables(check, ctx, rule="SEG-c", groups=("sponge",))
